@@ -254,22 +254,55 @@ impl QueryFilter {
         }
     }
 
-    /// Extract predicates from an expression recursively
+    /// Extract predicates from an expression recursively.
+    ///
+    /// `predicates` is a conjunction, so only the operands of `AND` may be
+    /// appended to it one by one. A disjunction becomes a single
+    /// `ColumnPredicate::Or` tree (and is skipped when one side cannot be
+    /// expressed, since dropping only that side would change its meaning).
     fn extract_predicates_from_expr(expr: &Expr, predicates: &mut Vec<ColumnPredicate>) {
         match expr {
             Expr::BinaryOp { left, op, right } => {
                 if let Some(pred) = Self::try_extract_comparison(left, op, right) {
                     predicates.push(pred);
                 }
-                if matches!(op, BinaryOperator::And | BinaryOperator::Or) {
-                    Self::extract_predicates_from_expr(left, predicates);
-                    Self::extract_predicates_from_expr(right, predicates);
+                match op {
+                    BinaryOperator::And => {
+                        Self::extract_predicates_from_expr(left, predicates);
+                        Self::extract_predicates_from_expr(right, predicates);
+                    }
+                    BinaryOperator::Or => {
+                        if let Some(pred) = Self::expr_to_predicate(expr) {
+                            predicates.push(pred);
+                        }
+                    }
+                    _ => {}
                 }
             }
             Expr::Nested(inner) => {
                 Self::extract_predicates_from_expr(inner, predicates);
             }
             _ => {}
+        }
+    }
+
+    /// Convert a whole boolean expression into one predicate tree, if every part
+    /// of it can be expressed.
+    fn expr_to_predicate(expr: &Expr) -> Option<ColumnPredicate> {
+        match expr {
+            Expr::Nested(inner) => Self::expr_to_predicate(inner),
+            Expr::BinaryOp { left, op, right } => match op {
+                BinaryOperator::And => Some(ColumnPredicate::And(
+                    Box::new(Self::expr_to_predicate(left)?),
+                    Box::new(Self::expr_to_predicate(right)?),
+                )),
+                BinaryOperator::Or => Some(ColumnPredicate::Or(
+                    Box::new(Self::expr_to_predicate(left)?),
+                    Box::new(Self::expr_to_predicate(right)?),
+                )),
+                _ => Self::try_extract_comparison(left, op, right),
+            },
+            _ => None,
         }
     }
 
